@@ -392,9 +392,19 @@ fn generate(seed: u64, n: usize, out: &mut dyn Write) {
         writeln!(out, "bapp {} {} {} {} {} {} {} {} q{}", b(a0), b(b0), tl0, enabled as u8, sel, key, chain, q, variant).unwrap();
         let frames = 6 + r.below(30);
         let mut cur_slot = tl0.clone();
+        // "busy" blocks assign the selector key often, and mostly to the key assigned last (a re-assignment that
+        // changes nothing but still takes the selector mutably) — in particular right after the frame that ended
+        let busy = with_sel && r.chance(1, 3);
+        let mut last_key = key;
         for _ in 0..frames {
+            if busy && r.chance(1, 3) {
+                let k = if r.chance(2, 3) { last_key } else { r.below(4) };
+                last_key = k;
+                writeln!(out, "setkey {}", k).unwrap();
+                if r.chance(1, 4) { writeln!(out, "setkey {}", k).unwrap(); }
+            }
             match r.below(20) {
-                0 if with_sel => writeln!(out, "setkey {}", r.below(4)).unwrap(),
+                0 if with_sel => { last_key = r.below(4); writeln!(out, "setkey {}", last_key).unwrap() }
                 1 => writeln!(out, "enable {}", r.below(2)).unwrap(),
                 2 => writeln!(out, "breset").unwrap(),
                 3 => { let s = 1 + r.below(4); cur_slot = s.to_string(); writeln!(out, "settl {}", s).unwrap() }
